@@ -113,7 +113,7 @@ def rv(rep, binp, profile, seed, tier, extra=(), tag=None, shards=None, build='d
     rep.add_trace_results((tag or profile) + (' ' + ' '.join(extra) if extra else ''), spec, results, st)
     if st['files']:
         rep.sample_from(st['files'][len(st['files']) // 2], n=1)
-    handle_trace_violations(rep, results)
+    handle_trace_violations(rep, results, build=build)
     return results
 
 
